@@ -1,4 +1,82 @@
-// engine K harnesses for module hook 'send' (included under cfg(kani) by /repo)
+// engine K — helpers/gateway/send.rs (property C13: capacity / read-size alignment rule)
+//
+// The statement for *all* powers of two `active`, all record sizes and read sizes is the Verus unit
+// (verus/send_config). These units run the *unsubstituted* real `SendChannelConfig::new_with` on a grid of
+// concrete (active, record_size) with a symbolic configured read size and every kind of TotalRecords — a bounded
+// cross-check that the weave's substitutions are faithful (CBMC does not finish with symbolic 64-bit divisors).
+use super::*;
+use crate::utils::NonZeroU32PowerOfTwo;
+
+fn any_total() -> TotalRecords {
+    match kani::any::<u8>() % 3 {
+        0 => TotalRecords::Unspecified,
+        1 => {
+            let n: usize = kani::any();
+            match NonZeroUsize::new(n) {
+                Some(n) => TotalRecords::Specified(n),
+                None => TotalRecords::Indeterminate,
+            }
+        }
+        _ => TotalRecords::Indeterminate,
+    }
+}
+
+/// the rule, as the property states it
+fn check(active: usize, record_size: usize) {
+    let read_cfg: usize = kani::any();
+    kani::assume(read_cfg >= 1 && read_cfg <= (1 << 20));
+    let Ok(act) = NonZeroU32PowerOfTwo::try_from(active) else {
+        kani::assume(false);
+        unreachable!()
+    };
+    let Some(rs) = NonZeroUsize::new(read_cfg) else {
+        kani::assume(false);
+        unreachable!()
+    };
+    let total = any_total();
+    let indeterminate = total.is_indeterminate();
+    let cfg = GatewayConfig { active: act, read_size: rs, ..Default::default() };
+    // no panic: the function's own asserts hold
+    let c = SendChannelConfig::new_with(cfg, total, record_size);
+    let (cap, rsz, rec) = (c.total_capacity.get(), c.read_size.get(), c.record_size.get());
+    assert!(rec == record_size);
+    assert!(cap == active * record_size);
+    assert!(rsz > 0 && rsz <= cap);
+    assert!(rsz % record_size == 0);
+    assert!(cap % rsz == 0);
+    assert!((rsz / record_size).is_power_of_two());
+    if indeterminate {
+        assert!(rsz == record_size);
+    } else {
+        // as close to the configured read size as a power-of-two multiple allows
+        assert!(rsz <= read_cfg || rsz == record_size);
+        assert!(rsz == cap || 2 * rsz > read_cfg);
+    }
+}
+
+macro_rules! grid {
+    ($name:ident, $rec:expr) => {
+        #[kani::proof]
+        #[kani::unwind(19)]
+        fn $name() {
+            kani::cover!(true);
+            for k in 0..=16u32 {
+                check(1usize << k, $rec);
+            }
+        }
+    };
+}
+grid!(c13_send_config_grid_rec1, 1);
+grid!(c13_send_config_grid_rec2, 2);
+grid!(c13_send_config_grid_rec3, 3);
+grid!(c13_send_config_grid_rec4, 4);
+grid!(c13_send_config_grid_rec8, 8);
+grid!(c13_send_config_grid_rec12, 12);
+grid!(c13_send_config_grid_rec16, 16);
+grid!(c13_send_config_grid_rec24, 24);
+grid!(c13_send_config_grid_rec32, 32);
+grid!(c13_send_config_grid_rec96, 96);
+grid!(c13_send_config_grid_rec4097, 4097);
 
 #[cfg(test)]
 include!(concat!(env!("IPA_VERIF_DIR"), "/.build/playback/send.rs"));
